@@ -250,5 +250,76 @@ pub proof fn lemma_dealer_maps_step<C: Ciphersuite>(shares: Map<Identifier<C>, c
     }
 }
 
+
+// ---- reconstruct (RFC 9591 appendix C.1 secret_share_combine / polynomial_interpolate_constant) ----
+pub open spec fn kp_ids<C: Ciphersuite>(kps: Seq<crate::keys::KeyPackage<C>>) -> Seq<Identifier<C>> { kps.map_values(|k: crate::keys::KeyPackage<C>| k.identifier) }
+
+pub open spec fn spec_min_min_signers<C: Ciphersuite>(kps: Seq<crate::keys::KeyPackage<C>>) -> int decreases kps.len()
+{ if kps.len() == 0 { 65536 } else { let r = spec_min_min_signers::<C>(kps.drop_last()); if (kps.last().min_signers as int) < r { kps.last().min_signers as int } else { r } } }
+
+// sum over the first n packages of  L_i(0) * s_i  with the Lagrange basis over the identifier sequence `ids`
+pub open spec fn spec_interpolate0<C: Ciphersuite>(kps: Seq<crate::keys::KeyPackage<C>>, ids: Seq<Identifier<C>>, n: nat) -> Scalar<C> decreases n
+{ if n == 0 { s0::<C>() } else { sadd::<C>(spec_interpolate0::<C>(kps, ids, (n - 1) as nat),
+      smul::<C>(spec_lagrange::<C>(ids, None, kps[n - 1].identifier), kps[n - 1].signing_share.0.0)) } }
+
+pub proof fn lemma_min_min_signers<C: Ciphersuite>(kps: Seq<crate::keys::KeyPackage<C>>, m: u16)
+    requires kps.len() > 0,
+        exists|k: int| 0 <= k < kps.len() && (#[trigger] kps[k]).min_signers == m,
+        forall|k: int| 0 <= k < kps.len() ==> m <= (#[trigger] kps[k]).min_signers,
+    ensures spec_min_min_signers::<C>(kps) == m
+    decreases kps.len()
+{
+    let r = kps.drop_last();
+    if r.len() == 0 {
+        assert(spec_min_min_signers::<C>(r) == 65536);
+        assert(kps[0].min_signers == m);
+    } else {
+        if exists|k: int| 0 <= k < r.len() && (#[trigger] r[k]).min_signers == m {
+            assert forall|k: int| 0 <= k < r.len() implies m <= (#[trigger] r[k]).min_signers by { assert(r[k] == kps[k]); }
+            lemma_min_min_signers::<C>(r, m);
+        } else {
+            let k = choose|k: int| 0 <= k < kps.len() && (#[trigger] kps[k]).min_signers == m;
+            if k < r.len() { assert(r[k].min_signers == m); }
+            assert(kps.last().min_signers == m);
+            assert forall|k: int| 0 <= k < r.len() implies m <= (#[trigger] r[k]).min_signers by { assert(r[k] == kps[k]); }
+            lemma_min_lower::<C>(r, m);
+        }
+    }
+}
+pub proof fn lemma_min_lower<C: Ciphersuite>(kps: Seq<crate::keys::KeyPackage<C>>, m: u16)
+    requires forall|k: int| 0 <= k < kps.len() ==> m <= (#[trigger] kps[k]).min_signers
+    ensures spec_min_min_signers::<C>(kps) >= m
+    decreases kps.len()
+{ if kps.len() > 0 { lemma_min_lower::<C>(kps.drop_last(), m); } }
+
+pub proof fn lemma_kp_ids_card<C: Ciphersuite>(kps: Seq<crate::keys::KeyPackage<C>>)
+    ensures (kp_ids::<C>(kps).to_set().len() == kps.len()) == kp_ids::<C>(kps).no_duplicates()
+{
+    let q = kp_ids::<C>(kps);
+    if q.no_duplicates() { q.unique_seq_to_set(); }
+    else { lemma_dup_card::<Identifier<C>>(q); }
+}
+
+// a sequence with a duplicate has strictly fewer distinct elements than its length
+pub proof fn lemma_dup_card<T>(q: Seq<T>)
+    requires !q.no_duplicates()
+    ensures q.to_set().len() < q.len()
+    decreases q.len()
+{
+    broadcast use vstd::seq_lib::group_seq_properties;
+    let (i, j) = choose|i: int, j: int| 0 <= i < q.len() && 0 <= j < q.len() && i != j && q[i] == q[j];
+    let hi = if i < j { j } else { i };
+    let lo = if i < j { i } else { j };
+    let r = q.remove(hi);
+    assert(r.to_set() =~= q.to_set()) by {
+        assert forall|x: T| r.to_set().contains(x) <==> q.to_set().contains(x) by {
+            if r.contains(x) { let w = choose|w: int| 0 <= w < r.len() && r[w] == x; if w < hi { assert(q[w] == x); } else { assert(q[w + 1] == x); } }
+            if q.contains(x) { let w = choose|w: int| 0 <= w < q.len() && q[w] == x;
+                if w < hi { assert(r[w] == x); } else if w > hi { assert(r[w - 1] == x); } else { assert(r[lo] == x); } }
+        }
+    }
+    r.lemma_cardinality_of_set();
+}
+
 } // verus!
 }
